@@ -1,6 +1,6 @@
 (* C13 property theorems.  Nothing but statements, each closed by `exact <lemma>.`, with
    Print Assumptions beneath.  Definitions: C13/Model.v (tables: C13/Gen.v, regenerated). *)
-From Wz Require Import lib.Bytes lib.Utf8 C13.Gen C13.Model C13.Proofs C13.Attrs C13.Jar.
+From Wz Require Import lib.Bytes lib.Utf8 C13.Gen C13.Model C13.Proofs C13.Attrs C13.Jar C13.JarMatchModel C13.JarMatch.
 Open Scope N_scope.
 
 (* every byte outside the cookie-octet set is escaped (SP is kept literal inside the quotes) *)
@@ -74,3 +74,30 @@ Theorem C13_client_jar_roundtrip : forall k v a,
   exists hdr, dump_cookie k v a = Some hdr /\ parse_cookie_environ (jar_request_header hdr) = EOk [(k, v)].
 Proof. exact client_jar_roundtrip. Qed.
 Print Assumptions C13_client_jar_roundtrip.
+
+(* which stored cookies the jar sends (test.Cookie._matches_request): its path test is exactly RFC 6265
+   5.1.4 path-match - identical, or the cookie path is a prefix that ends in "/" or is followed by "/" *)
+Theorem C13_jar_path_match : forall cpath path,
+  jar_path_matches cpath path = true <->
+  path = cpath \/ exists rest, path = cpath ++ rest /\ (last_is SLASH cpath = true \/ exists r, rest = SLASH :: r).
+Proof. exact jar_path_is_rfc_path_match. Qed.
+Print Assumptions C13_jar_path_match.
+
+(* ... and its domain test RFC 6265 5.1.3 domain-match: identical, or - only for a cookie that carried
+   a Domain attribute - a suffix of the server name preceded by "." *)
+Theorem C13_jar_domain_match : forall origin_only domain server,
+  jar_domain_matches origin_only domain server = true <->
+  server = domain \/ (origin_only = false /\ exists p, server = p ++ DOT :: domain).
+Proof. exact jar_domain_is_rfc_domain_match. Qed.
+Print Assumptions C13_jar_domain_match.
+
+Example C13_jar_match_example :
+  jar_path_matches [47; 115; 47] [47; 115; 47; 99] = true /\
+  jar_path_matches [47; 115] [47; 115; 47; 99] = true /\
+  jar_path_matches [47; 115] [47; 115; 120] = false /\
+  jar_path_matches [47] [47; 97] = true /\
+  jar_domain_matches false [97; 46; 98] [120; 46; 97; 46; 98] = true /\
+  jar_domain_matches true [97; 46; 98] [120; 46; 97; 46; 98] = false /\
+  jar_domain_matches false [97; 46; 98] [120; 97; 46; 98] = false.
+Proof. exact jar_match_example. Qed.
+Print Assumptions C13_jar_match_example.
